@@ -75,7 +75,6 @@ func (flavor) Oracle(ops []lc.Op, obs []lc.StepObs) []core.Failure {
 	opened := map[int]int{}    // probe writer key → OpenWriter calls
 	closed := map[int]int{}    // probe writer key → Close calls
 	everUsed := map[int]int{}  // writer key (0 = stderr) → number of contexts that opened it and got that far
-	leaked := map[int][]int{}  // sockets C01's finding F2 accounts for
 	cfgOf := map[int]*lc.Cfg{} // context number → the configuration it was created for
 	postOf := map[int]bool{}
 	for i, o := range obs {
@@ -224,22 +223,9 @@ func (flavor) Oracle(ops []lc.Op, obs []lc.StepObs) []core.Failure {
 				add("probe-writer-open-without-user", fmt.Sprintf("op %d: writer %d", i, k))
 			}
 		}
-		for a, t := range lc.F2Leak(attempted, o) {
-			leaked[a] = append(leaked[a], t...)
-		}
 		want := lc.WantSocks(running)
 		if !lc.SocksEqual(o, want) {
-			withLeak := map[int][]int{}
-			for a, t := range want {
-				withLeak[a] = append(withLeak[a], t...)
-			}
-			for a, t := range leaked {
-				withLeak[a] = append(withLeak[a], t...)
-			}
-			if len(leaked) > 0 && lc.SocksEqual(o, withLeak) {
-				add("http-start-bind-failure-leaves-earlier-listeners-bound",
-					fmt.Sprintf("op %d (%s → %s): sockets %s, running configuration has %s (C01's finding F2: the HTTP app does not close the listeners it bound before its Start failed)", i, op, o.Res, lc.ShowSocks(o), lc.ShowWant(want)))
-			} else {
+			{
 				add("sockets-not-a-function-of-running-config",
 					fmt.Sprintf("op %d (%s → %s): sockets %s, running configuration has %s", i, op, o.Res, lc.ShowSocks(o), lc.ShowWant(want)))
 			}
